@@ -29,13 +29,14 @@ def run(pid, tier):
         ctx = Ctx(fresh=(tier == "thorough"))
         ctx.tier = tier
         from . import symeval
+        from .rules import progx  # noqa: registers the fallback hooks
         symeval.DEFAULT_CTX = ctx
         if tier == "thorough":
             # deeper small scopes (the evidence records them)
             from .rules import stringx, buildeval
             stringx.RMAX, stringx.LMAX = 21, 6
             buildeval.EXTRA_REPRESENTATIVES = True
-            chk.analysed["scopes"] = {"decoder": "0..21 bytes left, limits none/0..6/2^62/2^64-1", "builder": "an additional representative per selection state (three functions)"}
+            chk.analysed["scopes"] = {"decoder": "0..21 bytes left, limits none/0..6/2^62/2^64-1", "builder": "every module shape with up to two functions of 0..2 blocks (last one open or finished) and every selection index in {none, 0, 1, 2}"}
         chk.analysed["facts"] = {"key": ctx.meta["key"], "repo": ctx.meta["repo"], "source_files": ctx.meta["files"],
                                  "extract_s": ctx.meta["extract_s"]}
         mod.run(ctx, chk)
